@@ -58,6 +58,8 @@ def get_facts(repo=None):
     f.meta = meta
     f.path = p
     f.parser_src = p[:-5] + ".reval.rs"
+    import norm
+    norm.FACTS = f
     return f
 
 
